@@ -15,6 +15,7 @@ import (
 	"github.com/whatap/golib/lang/service"
 	"github.com/whatap/golib/lang/value"
 	"github.com/whatap/golib/util/hmap"
+	"verif/harness/vh"
 )
 
 type witness struct {
@@ -40,6 +41,9 @@ var witnesses = []witness{
 	{"D63", "CounterPack1.TxcallerPOidMeter:acts-length", witnessD63},
 	{"D65", "StatGeneralPack.GetDataTable:panic", witnessD65},
 	{"D66", "SMBasePack.OS:unsupported-os", witnessD66},
+	{"D67-error", "StatErrorPack.GetRecords:panic", witnessD67Error},
+	{"D67-downcheck", "SMDownCheckPack.GetRecords:panic", witnessD67DownCheck},
+	{"D68", "EventPack.Uuid:stale-after-reuse", witnessD68},
 }
 
 // runWitness evaluates the plain round trip on obj and reports whether a failure
@@ -217,4 +221,57 @@ func witnessD66() (bool, string) {
 		return true, fmt.Sprintf("SMBasePack{OS:OS_SUNOS,UpTime:3}: decoded Cpu=%v UpTime=%d", q.Cpu, q.UpTime)
 	}
 	return false, "SMBasePack{OS:OS_SUNOS} round-trips"
+}
+
+// D67 StatErrorPack.GetRecords / SMDownCheckPack.GetRecords read the 16-bit record count signed
+// (their siblings mask it with 0xffff): a table of 32768..65535 records does not come back.
+func witnessD67Error() (bool, string) {
+	items := make([]*pack.ErrorRec, 32768)
+	for i := range items {
+		items[i] = &pack.ErrorRec{ClassHash: int32(i)}
+	}
+	p := pack.NewStatErrorPack()
+	p.SetRecordsArray(items)
+	var n int
+	oc := guard(func() { n = len(pack.ToPack(pack.ToBytesPack(p)).(*pack.StatErrorPack).GetRecords()) })
+	if !oc.OK() || n != len(items) {
+		return true, fmt.Sprintf("StatErrorPack with 32768 records: GetRecords returns %d records %s", n, vh.Clip(oc.Panic, 120))
+	}
+	return false, "StatErrorPack with 32768 records round-trips"
+}
+
+func witnessD67DownCheck() (bool, string) {
+	items := make([]*pack.DownCheckRec, 32768)
+	for i := range items {
+		items[i] = &pack.DownCheckRec{Port: int32(i)}
+	}
+	p := pack.NewSMDownCheckPack()
+	p.SetRecords(items)
+	var n int
+	oc := guard(func() {
+		in := gio.NewDataInputX(pack.ToBytesPack(p))
+		in.ReadShort()
+		q := pack.NewSMDownCheckPack()
+		q.Read(in)
+		n = len(q.GetRecords())
+	})
+	if !oc.OK() || n != len(items) {
+		return true, fmt.Sprintf("SMDownCheckPack with 32768 records: GetRecords returns %d records %s", n, vh.Clip(oc.Panic, 120))
+	}
+	return false, "SMDownCheckPack with 32768 records round-trips"
+}
+
+// D68 EventPack.Write leaves the reserved keys in the pack's own Attr table: a pack written with a
+// uuid, then cleared and written again, still sends the old uuid.
+func witnessD68() (bool, string) {
+	p := pack.NewEventPack()
+	p.Uuid = "u-1"
+	pack.ToBytesPack(p)
+	p.Uuid = ""
+	var got string
+	oc := guard(func() { got = pack.ToPack(pack.ToBytesPack(p)).(*pack.EventPack).Uuid })
+	if !oc.OK() || got != "" {
+		return true, fmt.Sprintf("EventPack{Uuid:\"u-1\"} encoded, Uuid cleared, encoded again: decodes with Uuid %q %s", got, vh.Clip(oc.Panic, 120))
+	}
+	return false, "a re-used EventPack with its Uuid cleared decodes with an empty Uuid"
 }
